@@ -489,17 +489,21 @@ def skippedBySetOp (a : Value) : Bool :=
   a.isKnown && (match elementTypeOf a.ty with | .ok ty => ty.equals .dyn | _ => false) &&
     (match lengthInt a with | .ok 0 => true | _ => false)
 
-theorem setOp_match_ok {skip : Res Bool} {r : Res (List Ty)} {ty : Ty} {ts : List Ty}
+theorem setOp_match_ok {skip : Res Bool} {r : Res (Option (List Ty))} {ty : Ty} {o : Option (List Ty)}
     (h : (match skip, r with
-      | .ok true, .ok ts => (.ok ts : Res (List Ty))
-      | .ok false, .ok ts => .ok (ty :: ts)
+      | .ok _, .ok none => (.ok none : Res (Option (List Ty)))
+      | .ok true, .ok (some ts) => .ok (some ts)
+      | .ok false, .ok (some ts) => .ok (some (ty :: ts))
       | .ok _, r => r
-      | r, _ => Res.cast r) = .ok ts) :
-    ∃ b ts', skip = .ok b ∧ r = .ok ts' ∧ ts = if b then ts' else ty :: ts' := by
+      | r, _ => Res.cast r) = .ok o) :
+    ∃ b o', skip = .ok b ∧ r = .ok o' ∧ o = o'.map fun ts' => if b then ts' else ty :: ts' := by
   cases skip with
   | ok b =>
     cases r with
-    | ok ts' => cases b <;> simp_all
+    | ok o' =>
+      cases o' with
+      | none => cases b <;> simp at h <;> subst h <;> simp
+      | some ts' => cases b <;> simp at h <;> subst h <;> simp
     | err c => cases b <;> simp at h
     | panic c => cases b <;> simp at h
     | unmodelled => cases b <;> simp at h
@@ -507,43 +511,47 @@ theorem setOp_match_ok {skip : Res Bool} {r : Res (List Ty)} {ty : Ty} {ts : Lis
   | panic c => simp [Res.cast] at h
   | unmodelled => simp [Res.cast] at h
 
-theorem setOpElemTypes_unkOf : ∀ (as : List Value) (ts : List Ty),
-    (∀ a ∈ as, skippedBySetOp a = false) → setOpElemTypes as = .ok ts →
-    setOpElemTypes (as.map unkOf) = .ok ts
-  | [], ts, _, h => h
-  | a :: rest, ts, hs, h => by
+theorem setOpElemTypes_unkOf : ∀ (as : List Value) (o : Option (List Ty)),
+    (∀ a ∈ as, skippedBySetOp a = false) → setOpElemTypes as = .ok o →
+    setOpElemTypes (as.map unkOf) = .ok o
+  | [], o, _, h => h
+  | a :: rest, o, hs, h => by
     simp only [setOpElemTypes] at h
     simp only [List.map, setOpElemTypes, unkOf_ty, unkOf_isKnown]
     have hsa := hs a (List.mem_cons_self ..)
     have hrest : ∀ b ∈ rest, skippedBySetOp b = false := fun b hb => hs b (List.mem_cons_of_mem _ hb)
-    cases he : elementTypeOf a.ty with
-    | ok ty =>
-      rw [he] at h
-      simp only at h ⊢
-      simp only [skippedBySetOp, he] at hsa
-      obtain ⟨b, ts', hb, hr, rfl⟩ := setOp_match_ok h
-      rw [setOpElemTypes_unkOf rest ts' hrest hr]
-      simp only [Bool.not_false, if_true]
-      have : b = false := by
-        by_cases hk : a.isKnown = true
-        · simp only [hk, Bool.not_true, Bool.false_eq_true, if_false, Bool.true_and] at hb hsa
-          cases hl : lengthInt a with
-          | ok l =>
-            rw [hl] at hb hsa
-            simp only [Res.ok.injEq] at hb
-            cases l with
-            | zero => simp_all
-            | succ n => simpa using hb.symm
-          | err c => rw [hl] at hb; simp [Res.cast] at hb
-          | panic w => rw [hl] at hb; simp [Res.cast] at hb
-          | unmodelled => rw [hl] at hb; simp [Res.cast] at hb
-        · simp only [hk] at hb
-          simpa using hb.symm
-      subst this
-      rfl
-    | err c => rw [he] at h; simp [Res.cast] at h
-    | panic w => rw [he] at h; simp [Res.cast] at h
-    | unmodelled => rw [he] at h; simp [Res.cast] at h
+    by_cases hd : a.ty.isDyn = true
+    · -- the early `return cty.DynamicPseudoType, nil` looks at the type only
+      simpa only [hd, if_true] using h
+    · simp only [hd, Bool.false_eq_true, if_false] at h ⊢
+      cases he : elementTypeOf a.ty with
+      | ok ty =>
+        rw [he] at h
+        simp only at h ⊢
+        simp only [skippedBySetOp, he] at hsa
+        obtain ⟨b, o', hb, hr, rfl⟩ := setOp_match_ok h
+        rw [setOpElemTypes_unkOf rest o' hrest hr]
+        simp only [Bool.not_false, if_true]
+        have : b = false := by
+          by_cases hk : a.isKnown = true
+          · simp only [hk, Bool.not_true, Bool.false_eq_true, if_false, Bool.true_and] at hb hsa
+            cases hl : lengthInt a with
+            | ok l =>
+              rw [hl] at hb hsa
+              simp only [Res.ok.injEq] at hb
+              cases l with
+              | zero => simp_all
+              | succ n => simpa using hb.symm
+            | err c => rw [hl] at hb; simp [Res.cast] at hb
+            | panic w => rw [hl] at hb; simp [Res.cast] at hb
+            | unmodelled => rw [hl] at hb; simp [Res.cast] at hb
+          · simp only [hk] at hb
+            simpa using hb.symm
+        subst this
+        cases o' <;> rfl
+      | err c => rw [he] at h; simp [Res.cast] at h
+      | panic w => rw [he] at h; simp [Res.cast] at h
+      | unmodelled => rw [he] at h; simp [Res.cast] at h
 
 /-- full statement (false: `typeMono_setOp_counterexample`) -/
 def TypeMonoSetOp : Prop := ∀ E : Env, TypeMono (setOpType E)
@@ -553,8 +561,8 @@ theorem typeMono_setOp_partial (E : Env) (as : List Value) (t : Ty)
     ∃ t', setOpType E (as.map unkOf) = .ok t' ∧ Admits t' t := by
   unfold setOpType at h ⊢
   cases he : setOpElemTypes as with
-  | ok ts =>
-    rw [setOpElemTypes_unkOf as ts hs he]
+  | ok o =>
+    rw [setOpElemTypes_unkOf as o hs he]
     rw [he] at h
     exact ⟨t, h, admits_refl _⟩
   | err c => rw [he] at h; simp [Res.cast] at h
